@@ -380,6 +380,8 @@ func main() {
 		genC04(*out, *tier, rng)
 	case "C02", "C10", "C15":
 		genHist(*prop, *out, *tier, rng, "")
+	case "C09":
+		genC09(*out, *tier, rng)
 	case "C11":
 		genC11(*out, *tier, rng)
 	default:
